@@ -534,6 +534,8 @@ func isStartTLSConn(conn net.Conn) bool {
 
 //@ func (c *Conn) writeCopyOK(tag string, data *imap.CopyData) (err error)
 //@   ghost-inc tagged when tag != ""
+//@   props C04:callsite
+//@   callsite Encoder.NumSet(e *imapwire.Encoder, numSet imap.NumSet) requires !numSetEmptySpec(numSet)
 //@   ensures c.state == old(c.state)
 
 // Every method of *Conn without a tag parameter writes no tagged response.
@@ -542,6 +544,7 @@ func isStartTLSConn(conn net.Conn) bool {
 //@   props C04:post,pre@call
 //@   post-all
 //@   ensures __ghost("tagged") == old(__ghost("tagged"))
+//@   ensures __called("newResponseEncoder") ==> __called("responseEncoder.end")
 //@   exclude serve readCommand handleStartTLS handleAuthenticate handleLogin handleSelect handleAppend handleCopy handleSearch writeStatusResp writeCapabilityStatus writeAppendOK writeCopyOK writeESearch Bye readLine
 
 //@ func (c *Conn) writeStatusResp(tag string, statusResp *imap.StatusResponse) (err error)
